@@ -60,6 +60,9 @@ def instances(tier):
         if tier == "quick" and len(azs) == 3:
             continue
         out.append({"name": f"state_azimuths_{'_'.join(str(int(a)) for a in azs)}", "func": "run_state", "kwargs": {"naz": len(azs), "w": 2, "nf": 2, "dist": "lognormal", "azimuths": azs}})
+    # the same live object queried, its accept masks changed (possibly to the same counts), queried again
+    for dist in ("normal", "lognormal"):
+        out.append({"name": f"requery_after_mask_change_{dist}", "func": "run_requery", "kwargs": {"dist": dist}})
     for dist in ("normal", "lognormal"):
         out.append({"name": f"perm_{dist}", "func": "run_perm", "kwargs": {"dist": dist}})
         out.append({"name": f"single_azimuth_{dist}", "func": "run_single", "kwargs": {"dist": dist}})
@@ -97,10 +100,10 @@ def make_state(ctx, naz, w, nf, tag="", azimuths=None):
     return az, status
 
 
-def wit(az, status, dist, what):
+def wit(az, status, dist, what, prior=None):
     def w(m):
         val = concretiser(m)
-        return {"kind": "azstate", "dist": dist, "what": what, "status": status, "azimuths": [float(a) for a in az.azimuths],
+        return {"kind": "azstate", "dist": dist, "what": what, "status": status, "prior_status": prior, "azimuths": [float(a) for a in az.azimuths],
                 "frequency": [float(f) for f in az.frequency],
                 "amplitude": [[[val(x) for x in row] for row in h.amplitude] for h in az.hvsrs],
                 "peak_frq": [[val(x) for x in h._main_peak_frq] for h in az.hvsrs],
@@ -152,8 +155,8 @@ def spec_stats(az, status, dist):
     return out
 
 
-def check(rep, ctx, az, status, dist, label=""):
-    W = lambda what: wit(az, status, dist, what)
+def check(rep, ctx, az, status, dist, label="", prior=None):
+    W = lambda what: wit(az, status, dist, what, prior)
     sp = spec_stats(az, status, dist)
     res = {}
     used = set()
@@ -259,6 +262,35 @@ def run_state(rep, tier, naz, w, nf, dist, azimuths=None):
             rep.sample({"status": status, "dist": dist})
 
 
+STAT_CALLS = ("mean_fn_frequency", "std_fn_frequency", "mean_fn_amplitude", "std_fn_amplitude", "cov_fn", "mean_curve", "std_curve")
+
+
+def run_requery(rep, tier, dist):
+    def run(ctx):
+        az, status = make_state(ctx, 2, 2, 2)
+        for nm in STAT_CALLS:                      # first use of the object
+            try:
+                getattr(az, nm)(dist)
+            except (ValueError, ZeroDivisionError, IndexError):
+                pass
+        status2 = []
+        for k, (h, st) in enumerate(zip(az.hvsrs, status)):
+            st2 = []
+            for i, s0 in enumerate(st):
+                s1 = s0 if s0 == "nopeak" else ["accepted", "rejected"][ctx.choose(2, tag=f"re{k}_{i}")]
+                st2.append(s1)
+                h.valid_window_boolean_mask[i] = h.valid_peak_boolean_mask[i] = (s1 == "accepted")
+            status2.append(st2)
+        return az, status, status2
+
+    for ctx, (az, status, status2) in rep.explore(run, max_paths=1500 if tier == "quick" else 6000):
+        if status2 == status or any(sum(1 for s in st if s == "accepted") < 1 for st in status2) or sum(sum(1 for s in st if s == "accepted") for st in status2) < 2:
+            continue
+        rep.reachable(ctx)
+        check(rep, ctx, az, status2, dist, label=f"after masks {status} -> {status2}: ", prior=status)
+        rep.sample({"before": status, "after": status2})
+
+
 def run_perm(rep, tier, dist):
     """nothing depends on the order of the azimuths"""
     def run(ctx):
@@ -323,11 +355,18 @@ def _concrete(spec):
         h = hvsrpy.HvsrTraditional(frq, np.array([[_num(x) for x in row] for row in amp]))
         hs.append(h)
     az = hvsrpy.HvsrAzimuthal(hs, spec.get("azimuths") or [10.0 * k for k in range(len(hs))])
-    for h, pf, pa, st in zip(az.hvsrs, spec["peak_frq"], spec["peak_amp"], spec["status"]):
-        h._main_peak_frq = np.array([_num(x) for x in pf])
-        h._main_peak_amp = np.array([_num(x) for x in pa])
-        ok = np.array([s == "accepted" for s in st])
-        h.valid_window_boolean_mask, h.valid_peak_boolean_mask = ok.copy(), ok.copy()
+    for status in ([spec["prior_status"]] if spec.get("prior_status") else []) + [spec["status"]]:
+        for h, pf, pa, st in zip(az.hvsrs, spec["peak_frq"], spec["peak_amp"], status):
+            h._main_peak_frq = np.array([_num(x) for x in pf])
+            h._main_peak_amp = np.array([_num(x) for x in pa])
+            for i, s in enumerate(st):
+                h.valid_window_boolean_mask[i] = h.valid_peak_boolean_mask[i] = (s == "accepted")
+        if status is not spec["status"]:
+            for nm in STAT_CALLS:                  # the first use of the object, under the earlier masks
+                try:
+                    getattr(az, nm)(spec["dist"])
+                except Exception:   # noqa
+                    pass
     return az
 
 
